@@ -60,15 +60,112 @@ Section Model.
   (** [blocks.Less] for two blocks of the same key *)
   Definition less (a b : blk) : bool := (b_min a <? b_min b) && (b_max a <? b_min b).
 
-  (** [sort.Stable] = [insertionSort] (n <= 20): every element is moved left while it is
-      [Less] than its left neighbour.  [rp] is the already sorted prefix, reversed. *)
+  (** [insertionSort(data, 0, n)]: every element is moved left while it is [Less] than its left
+      neighbour.  [rp] is the already sorted prefix, reversed. *)
   Fixpoint ins_rev (x : blk) (rp : list blk) : list blk :=
     match rp with
     | [] => [x]
     | y :: r => if less x y then y :: ins_rev x r else x :: y :: r
     end.
-  Definition sort_blocks (l : list blk) : list blk :=
+  Definition isort (l : list blk) : list blk :=
     rev (fold_left (fun rp x => ins_rev x rp) l []).
+
+  (** Go's [sort.Stable] ([stable], [symMerge], [rotate] of go1.23 src/sort/zsortinterface.go):
+      insertion sort on blocks of 20, then SymMerge of neighbouring runs with doubling block
+      size.  Index arithmetic on [nat]; the slice is a list; [rotate(a, m, b)] replaces
+      [data[a:b]] by [data[m:b] ++ data[a:m]]; the two "swap until in place" loops move one
+      element.  With a [Less] that is not a strict weak order the result depends on this
+      exact algorithm, which is why it is mirrored literally. *)
+  Definition dblk : blk := mkblk 0 0 [] [] 0 0.
+  Definition lessi (d : list blk) (i j : nat) : bool := less (nth i d dblk) (nth j d dblk).
+  Definition seg (d : list blk) (a b : nat) : list blk := firstn (b - a) (skipn a d).
+  Definition set_seg (d : list blk) (a b : nat) (new : list blk) : list blk :=
+    firstn a d ++ new ++ skipn b d.
+  Definition rotate (d : list blk) (a m b : nat) : list blk :=
+    set_seg d a b (seg d m b ++ seg d a m).
+
+  (** lowest [i] in [m, b) with [!Less(i, a)] *)
+  Fixpoint bs_first (fuel : nat) (d : list blk) (a i j : nat) : nat :=
+    match fuel with
+    | O => i
+    | S f => if (i <? j)%nat then
+               let h := Nat.div2 (i + j) in
+               if lessi d h a then bs_first f d a (S h) j else bs_first f d a i h
+             else i
+    end.
+  (** lowest [i] in [a, m) with [Less(m, i)] *)
+  Fixpoint bs_second (fuel : nat) (d : list blk) (m i j : nat) : nat :=
+    match fuel with
+    | O => i
+    | S f => if (i <? j)%nat then
+               let h := Nat.div2 (i + j) in
+               if negb (lessi d m h) then bs_second f d m (S h) j else bs_second f d m i h
+             else i
+    end.
+  (** the symmetric binary search: [for start < r { c := (start+r)/2; if !Less(p-c, c) … }] *)
+  Fixpoint bs_sym (fuel : nat) (d : list blk) (p start r : nat) : nat :=
+    match fuel with
+    | O => start
+    | S f => if (start <? r)%nat then
+               let c := Nat.div2 (start + r) in
+               if negb (lessi d (p - c) c) then bs_sym f d p (S c) r else bs_sym f d p start c
+             else start
+    end.
+
+  Fixpoint sym_merge (fuel : nat) (d : list blk) (a m b : nat) : list blk :=
+    match fuel with
+    | O => d
+    | S f =>
+        if Nat.eqb (m - a) 1 then
+          let i := bs_first (length d) d a m b in
+          (* data[a] moves to position i-1 *)
+          if (a <? i - 1)%nat then set_seg d a i (seg d (S a) i ++ [nth a d dblk]) else d
+        else if Nat.eqb (b - m) 1 then
+          let i := bs_second (length d) d m a m in
+          (* data[m] moves to position i *)
+          if (i <? m)%nat then set_seg d i (S m) (nth m d dblk :: seg d i m) else d
+        else
+          let mid := Nat.div2 (a + b) in
+          let n := (mid + m)%nat in
+          let '(start0, r) := if (mid <? m)%nat then ((n - b)%nat, mid) else (a, m) in
+          let p := (n - 1)%nat in
+          let start := bs_sym (length d) d p start0 r in
+          let en := (n - start)%nat in
+          let d1 := if (start <? m)%nat && (m <? en)%nat then rotate d start m en else d in
+          let d2 := if (a <? start)%nat && (start <? mid)%nat then sym_merge f d1 a start mid else d1 in
+          if (mid <? en)%nat && (en <? b)%nat then sym_merge f d2 mid en b else d2
+    end.
+
+  (** first phase of [stable]: insertion sort of every block of 20 *)
+  Fixpoint block_isort (fuel : nat) (d : list blk) : list blk :=
+    match fuel with
+    | O => d
+    | S f => match d with
+             | [] => []
+             | _ => isort (firstn 20 d) ++ block_isort f (skipn 20 d)
+             end
+    end.
+  (** one level: [for b <= n { symMerge(a, a+bs, b) … }; if a+bs < n { symMerge(a, a+bs, n) }] *)
+  Fixpoint merge_pass (fuel : nat) (d : list blk) (bsz a n : nat) : list blk :=
+    match fuel with
+    | O => d
+    | S f =>
+        if (a + 2 * bsz <=? n)%nat
+        then merge_pass f (sym_merge (S (length d)) d a (a + bsz) (a + 2 * bsz)) bsz (a + 2 * bsz) n
+        else if (a + bsz <? n)%nat then sym_merge (S (length d)) d a (a + bsz) n else d
+    end.
+  Fixpoint merge_levels (fuel : nat) (d : list blk) (bsz n : nat) : list blk :=
+    match fuel with
+    | O => d
+    | S f => if (bsz <? n)%nat then merge_levels f (merge_pass (S n) d bsz 0 n) (2 * bsz) n else d
+    end.
+  Definition go_stable (d : list blk) : list blk :=
+    let n := length d in merge_levels (S n) (block_isort (S n) d) 20 n.
+
+  (** [sort.Stable(k.blocks)]: [stable] starts with insertion sort of blocks of 20, so for at
+      most 20 blocks it IS the insertion sort *)
+  Definition sort_blocks (l : list blk) : list blk :=
+    if (length l <=? 20)%nat then isort l else go_stable l.
 
   (** *** [chunkFloat] *)
   Definition mkout (vs : arr) : blk := mkblk (min_time vs) (max_time vs) vs [] 0 0.
